@@ -27,5 +27,5 @@ def check(run, model, tier):
     hsmrules.outcome_rules(run, model)
     hsmrules.cursor_invariant(run, model, ['init', 'dispatch', 'is_in', 'child_state'])
     n = hsmrules.signal_sets(run, model, ['dispatch'])
-    run.floor('handler-call sites in dispatch', n, 9)
+    run.floor('handler-call sites in dispatch', n, 6)
     run.assume('H1-H4 handler protocol (see C01); a handler that answers HANDLED/IGNORED/UNHANDLED has not called chart.trans')
